@@ -16,6 +16,12 @@
 //   * Interval::include == running componentwise min/max (exact), Interval::inside closed (exact)
 //   * point sets: min / max by exhaustive scan (exact), mean against the long-double mean within
 //     the a-priori bound of sequential summation, scale * largest true side == 1 within 4 eps
+//   * object semantics (sections J, K): references bound from getters / results held by value are re-compared at the end,
+//     copies and moved-to objects behave as the original (source overwritten or destroyed), default-constructed objects
+//     are the zero box / whole finite range, aliased arguments are read from their values at call time, temporaries give
+//     the same answers, sibling objects do not interfere, 2^8+k / 2^16+k repetitions of include() and compute()
+//   * magnitudes at both ends of the floating range up to the limits where the unchanged library stays finite
+//     (boxes max/32, interval ends max/2, point coordinates max/4096); tolerances then carry an absolute denormal floor
 #include <Eigen/Core>
 #include <array>
 #include <list>
@@ -272,7 +278,7 @@ static void case_aabb_interval(vh::Ctx & c, vh::Rng & r)
     LD e = std::max(fabsl((LD)back.lower()[j] - (LD)lo[j]), fabsl((LD)back.upper()[j] - (LD)up[j]));
     if (e > worst_exact) {worst_exact = e;}
     // halving a denormal loses its last bit: (u+l)/2 and (u-l)/2 are each off by up to half a denorm_min
-    LD tol = 8 * epsL<S>() * m + (regime == 1 ? 4 * (LD)std::numeric_limits<S>::denorm_min() : 0);
+    LD tol = 8 * epsL<S>() * m + (regime == 1 ? 8 * (LD)std::numeric_limits<S>::denorm_min() : 0);
     LD ratio = tol > 0 ? e / tol : (e == 0 ? 0 : INFINITY);
     if (!(ratio <= worst)) {worst = ratio; wj = j;}
   }
@@ -913,7 +919,7 @@ static SetTruth<S> truth_of(const std::vector<S> & x, int n, int nc, int ncart)
 // (+ the absolute error of a quotient that lands in the denormals)
 template<class S> static LD mean_tol(LD sabs, int n)
 {
-  return 2 * epsL<S>() * (LD)(n + 1) / (LD)n * sabs + 2 * (LD)std::numeric_limits<S>::denorm_min();
+  return 2 * epsL<S>() * (LD)(n + 1) / (LD)n * sabs + 8 * (LD)std::numeric_limits<S>::denorm_min();
 }
 // the reciprocal of the largest side is a normal number of S only for sides within [4/max, max/4]
 template<class S> static bool side_has_reciprocal(LD side)
